@@ -7,11 +7,26 @@ def gen(rng, tier):
     return R.backoff_cases(rng, 400 if tier == "quick" else 20000)
 
 
+def gen_stack(rng, tier):
+    cases = []
+    faults = [("inproc", "mismatch"), ("tcp", "mismatch"), ("tcp", "garbage"), ("tcp", "rst"), ("tcp", "halfgreeting"),
+              ("tcp", "badframe"), ("ipc", "mismatch"), ("inproc", "none"), ("tcp", "none")]
+    reps = 1 if tier == "quick" else 8
+    for _ in range(reps):
+        for tr, f in faults:
+            cases.append(["faultlocal %s %s" % (tr, f)])
+    return cases
+
+
 SPEC = {
     "components": [{"comp": "routing", "gen": gen, "oracle": R.backoff_oracle, "label": "backoff",
-                    "nontrivial": lambda c, i: len(set(i)) > 1, "dist": lambda cs: {"cases": len(cs)}}],
+                    "nontrivial": lambda c, i: len(set(i)) > 1, "dist": lambda cs: {"cases": len(cs)}},
+                   {"comp": "stack", "gen": gen_stack, "label": "stack-faultlocal",
+                    "nontrivial": lambda c, i: any("healthy" in l for l in i), "dist": lambda cs: {"cases": len(cs)}}],
     "search": lambda rng, tier: [("routing", gen(rng, tier), R.backoff_oracle)],
-    "rule": "ReconnectState::on_connection_failure for (RECONNECT_IVL, RECONNECT_IVL_MAX, attempt) triples incl. 0, 2^31-1 ms, attempts "
+    "rule": "stack: a healthy PUSH->PULL pair exchanges traffic before and after a fault injected on ANOTHER connection of the same PULL "
+            "socket (wrong socket type over inproc/tcp/ipc, garbage bytes, reset, half a greeting then silence, valid handshake then "
+            "an oversized frame header); ReconnectState::on_connection_failure for (RECONNECT_IVL, RECONNECT_IVL_MAX, attempt) triples incl. 0, 2^31-1 ms, attempts "
             "0..33, 64, u32::MAX; oracle = start/at-most-doubling/cap/monotone; non-trivial = the schedule is not constant",
     "assumptions": ["failure locality and the connecter actor's own schedule are separate obligations (DESIGN §8 C17)"],
 }
